@@ -643,7 +643,7 @@ fn run_mutations(ctx: &mut Ctx, rep: &mut Report, ck: &mut Checker, base: &mut u
 fn run_utf8_runs(ctx: &mut Ctx, rep: &mut Report, ck: &mut Checker, base: &mut u64, bases: &[(usize, Base)]) {
     rep.space(
         "utf8_runs",
-        "small valid base files x EVERY insertion position 0..=len x {0,1,2,3} ASCII pad bytes followed by a run of >= 96 bytes of valid multi-byte UTF-8 characters of width 2 (U+00E9), 3 (U+20AC) or 4 (U+1F600),          i.e. every alignment of multi-byte character boundaries relative to any byte offset the reader may slice at; x chunkings {whole, 1-byte chunks, one cut at the fault}; same oracle as short_strings",
+        "small valid base files x EVERY insertion position 0..=len x {0,1,2,3} ASCII pad bytes followed by a run of >= 96 bytes of valid multi-byte UTF-8 characters of width 2 (U+00E9), 3 (U+20AC) or 4 (U+1F600),          i.e. every alignment of multi-byte character boundaries relative to any byte offset the reader may slice at; plus runs of 1, 2, 4, 23 and 100 bytes that are NOT valid UTF-8 (0xFF, 0x80, 0xC3) at every insertion position; x chunkings {whole, 1-byte chunks, one cut at the fault}; same oracle as short_strings",
     );
     let chars: [&str; 3] = ["\u{e9}", "\u{20ac}", "\u{1f600}"];
     for (ri, b) in bases {
@@ -665,6 +665,17 @@ fn run_utf8_runs(ctx: &mut Ctx, rep: &mut Report, ck: &mut Checker, base: &mut u
                     v.extend_from_slice(&ins);
                     v.extend_from_slice(&data[p..]);
                     let origin = Origin { base: b.name.clone(), fault: "utf8-run", detail: format!("{} pad bytes + run of {}-byte characters before byte {}", pad, wi + 2, p) };
+                    ck.check(rep, b.fmt, b.alpha, &v, p, true, &origin);
+                }
+            }
+            // runs of bytes that are NOT valid UTF-8 (0xFF; lone continuation bytes 0x80; lone lead bytes 0xC3): a reader
+            // that decodes lossily sees three bytes per invalid byte and its offsets drift by twice the run length
+            for &bad in &[0xFFu8, 0x80, 0xC3] {
+                for &n in &[1usize, 2, 4, 23, 100] {
+                    let mut v = data[..p].to_vec();
+                    v.extend(std::iter::repeat(bad).take(n));
+                    v.extend_from_slice(&data[p..]);
+                    let origin = Origin { base: b.name.clone(), fault: "invalid-utf8-run", detail: format!("{} x 0x{:02x} before byte {}", n, bad, p) };
                     ck.check(rep, b.fmt, b.alpha, &v, p, true, &origin);
                 }
             }
